@@ -119,6 +119,14 @@ def run(ctx):
         rng.shuffle(sh)
         sh = [("q%d" % k, s) for k, (n, s) in enumerate(sh)]
         pres.append(("shuffled+renamed", gen.fasta_text(sh)))
+        # FASTA records with very long description lines (4 k .. 20 k characters of free text spelled in letters of the OTHER class): a header is one
+        # line however long it is, and no part of it is residues
+        words = ["ACGT", "GATTACA", "TATA", "CAT", "TAG", "ACT"] if exp == 0 else ["hypothetical", "protein", "similar", "to", "kinase", "domain", "family", "member", "putative"]
+        desc = []
+        while sum(len(w_) + 1 for w_ in desc) < rng.choice([4090, 4100, 5000, 9000, 20000]):
+            desc.append(rng.choice(words))
+        kdesc = rng.randrange(len(recs))
+        pres.append(("fasta long description", "".join(">%s %s\n%s\n" % (n_, " ".join(desc) if k_ == kdesc or rng.random() < 0.3 else "x", q_) for k_, (n_, q_) in enumerate(recs))))
         # the other two readers, with long descriptive names spelled in letters of the OTHER class (the decision must not look at names)
         import random as _random
         from props import c04
